@@ -824,7 +824,15 @@ impl PeerHandler {
             .ok_or(Error::PieceBuffMissing)
             .expect("Saving to file: piece data not exist after validation");
         let name = utils::hash_to_string(&piece_rx.hash) + ".piece";
-        match fs::write(name, &piece_rx.buff).await {
+
+        // In end game other connection can store the same piece, and extractor or uploader can
+        // read it in the meantime. Replace file atomically, so nobody sees it truncated.
+        let tmp_name = name.clone() + "." + &self.connection.addr.replace(&[':', '/'][..], "_") + ".tmp";
+        if fs::write(&tmp_name, &piece_rx.buff).await.is_err() {
+            return Err(Error::FileCannotWrite);
+        }
+
+        match fs::rename(&tmp_name, &name).await {
             Ok(()) => Ok(()),
             Err(_) => Err(Error::FileCannotWrite),
         }
